@@ -1,5 +1,5 @@
 (* C10 — no terminal stall or configuration value can hang a client call.  Statements only. *)
-From Zvt Require Import Base Length Cp437 Encoding Codec Lookup Client ClientProps ClientTime.
+From Zvt Require Import Base Length Cp437 Encoding Codec Lookup Client ClientProps ClientLog ClientTime.
 Open Scope N_scope.
 
 (* the read-card timeout for EVERY configuration value: t + 2 seconds, never zero, no overflow *)
@@ -72,6 +72,23 @@ Print Assumptions C10_read_card_timeout_ok.
 Print Assumptions C10_poll_ends_by_deadline.
 Print Assumptions C10_retry_budget_bounds_the_poll.
 Print Assumptions C10_retry_budget_fits.
+(* THE RETRY BUDGET, counted in the event log: one poll never makes more connection attempts (opens + refusals) than the stream has
+   attempts left, a whole consumer loop never more than the budget it started with: a call built from one stream connects at most 20
+   times, whatever the terminal does and whether or not the call started on a kept connection *)
+Theorem C10_poll_respects_the_retry_budget : forall cfg fuel r w it r' w', retry_next fuel cfg r w = (it, r', w') ->
+  (attempts (w_log w') + r_left r' <= attempts (w_log w) + r_left r)%nat.
+Proof. exact retry_next_attempts. Qed.
+Theorem C10_call_connects_at_most_20_times : forall (A B : Type) cfg q T w acc (h : A -> N -> value -> option (cres B) * A) fin fuel,
+  (attempts (w_log (snd (consume fuel cfg (start_retry q T) w acc h fin))) <= attempts (w_log w) + 20)%nat.
+Proof. exact @call_attempts. Qed.
+
+Theorem C10_every_call_connects_boundedly : forall cfg st o w,
+  let '(_, _, w') := run_op cfg st o w in (attempts (w_log w') <= attempts (w_log w) + 140)%nat.
+Proof. exact every_call_attempts_bounded. Qed.
+
+Print Assumptions C10_every_call_connects_boundedly.
+Print Assumptions C10_poll_respects_the_retry_budget.
+Print Assumptions C10_call_connects_at_most_20_times.
 Print Assumptions C10_poll_elapsed.
 Print Assumptions C10_single_exchange_call_elapsed.
 Print Assumptions C10_every_call_returns_in_bounded_time.
